@@ -390,6 +390,8 @@ class PathRun:
             return SDyn(t, shape=sh)
         if isinstance(sh, S.Rec):
             t = Val.VObj(z3.Int(name))
+            if sh.truthy:
+                self.pc.append(truthyV(t))
             for an, ash in sh.attrs.items():
                 c = self.val_constraint(field_fn(an)(t), ash)
                 if c is not None:
@@ -448,7 +450,7 @@ class PathRun:
         if isinstance(sh, S.DateS): return z3.And(Val.is_VDate(t), Val.ord(t) >= 1, Val.ord(t) <= MAXORD)
         if isinstance(sh, S.NoneS): return Val.is_VNone(t)
         if isinstance(sh, S.Rec):
-            cs = [Val.is_VObj(t)]
+            cs = [Val.is_VObj(t)] + ([truthyV(t)] if sh.truthy else [])
             for an, ash in sh.attrs.items():
                 c = self.val_constraint(field_fn(an)(t), ash)
                 if c is not None:
